@@ -111,9 +111,9 @@ type Case struct {
 	// empty entries included) in the client operation; Consumes is then its first non-empty entry, the
 	// one the client is documented to use.
 	ConsumesList []string `json:"consumeslist,omitempty"`
-	Produces string `json:"produces"` // media type the operation produces
-	Params   []P    `json:"params"`
-	Auth     bool   `json:"auth,omitempty"` // a client auth writer is installed; it sets a credential header
+	Produces     string   `json:"produces"` // media type the operation produces
+	Params       []P      `json:"params"`
+	Auth         bool     `json:"auth,omitempty"` // a client auth writer is installed; it sets a credential header
 	// AuthMode says what the writer does besides setting the header: "" or "body1" it calls GetBody once,
 	// "header" never, "body2" / "body3" two / three times, "compose" it is client.Compose of two writers
 	// that each call GetBody once.
